@@ -3341,38 +3341,54 @@ class QuicConnection:
         # Bound the number of ranges in a frame and reserve the space the frame
         # really needs: a peer which leaves gaps in its packet numbers must not
         # make the frame outgrow the packet. The oldest ranges are acknowledged
-        # in a frame of their own and then forgotten, the newer ones follow in
-        # the next packet.
-        ack_ranges = space.ack_queue
-        highest_acked = space.largest_received_packet
-        overflow = len(space.ack_queue) > MAX_ACK_RANGES
-        if overflow:
-            ack_ranges = RangeSet(space.ack_queue[:MAX_ACK_RANGES])
-            highest_acked = ack_ranges[-1].stop - 1
-        scratch = Buffer(capacity=32 + 16 * len(ack_ranges))
-        push_ack_frame(scratch, ack_ranges, ack_delay_encoded)
+        # in frames of their own and then forgotten, the newest ones follow in
+        # the regular frame (in the next packet if there is no room left).
+        while len(space.ack_queue) > MAX_ACK_RANGES:
+            oldest = RangeSet(space.ack_queue[:MAX_ACK_RANGES])
+            highest_acked = oldest[-1].stop - 1
+            scratch = Buffer(capacity=32 + 16 * len(oldest))
+            push_ack_frame(scratch, oldest, ack_delay_encoded)
+            if builder.remaining_buffer_space < max(
+                ACK_FRAME_CAPACITY, 1 + scratch.tell()
+            ):
+                # the ACK timer stays armed, the rest goes into the next packet
+                return
+            buf = builder.start_frame(
+                QuicFrameType.ACK,
+                capacity=max(ACK_FRAME_CAPACITY, 1 + scratch.tell()),
+                handler=self._on_ack_delivery,
+                handler_args=(space, highest_acked),
+            )
+            push_ack_frame(buf, oldest, ack_delay_encoded)
+            if self._quic_logger is not None:
+                builder.quic_logger_frames.append(
+                    self._quic_logger.encode_ack_frame(ranges=oldest, delay=ack_delay)
+                )
+
+            # these ranges have been acknowledged, packets below them count as
+            # duplicates from now on
+            space.ack_queue.subtract(0, highest_acked + 1)
+            if highest_acked + 1 > space.ack_queue_floor:
+                space.ack_queue_floor = highest_acked + 1
+
+        scratch = Buffer(capacity=32 + 16 * len(space.ack_queue))
+        push_ack_frame(scratch, space.ack_queue, ack_delay_encoded)
         buf = builder.start_frame(
             QuicFrameType.ACK,
             capacity=max(ACK_FRAME_CAPACITY, 1 + scratch.tell()),
             handler=self._on_ack_delivery,
-            handler_args=(space, highest_acked),
+            handler_args=(space, space.largest_received_packet),
         )
-        ranges = push_ack_frame(buf, ack_ranges, ack_delay_encoded)
+        ranges = push_ack_frame(buf, space.ack_queue, ack_delay_encoded)
+        space.ack_at = None
 
         # log frame
         if self._quic_logger is not None:
             builder.quic_logger_frames.append(
-                self._quic_logger.encode_ack_frame(ranges=ack_ranges, delay=ack_delay)
+                self._quic_logger.encode_ack_frame(
+                    ranges=space.ack_queue, delay=ack_delay
+                )
             )
-
-        if overflow:
-            # these ranges have been acknowledged, packets below them count as
-            # duplicates from now on; the ACK timer stays armed for the rest
-            space.ack_queue.subtract(0, highest_acked + 1)
-            if highest_acked + 1 > space.ack_queue_floor:
-                space.ack_queue_floor = highest_acked + 1
-        else:
-            space.ack_at = None
 
         # check if we need to trigger an ACK-of-ACK
         if ranges > 1 and builder.packet_number % 8 == 0:
